@@ -632,22 +632,17 @@ pub fn in_fragment(w: &World) -> bool {
     }
 }
 
-/// Fragment side conditions that are not syntactic: no mixed inductive/coinductive dependencies
-/// (coinductive/auto impls depend only on coinductive/auto goals).
+/// Fragment side conditions that are not syntactic: no mixed inductive/coinductive CYCLES.
 pub fn shape_ok(p: &Prog) -> bool {
     for im in p.impls() {
-        let k = match p.tr(&im.tr) {
-            Some(t) => t.kind,
-            None => return false,
-        };
-        if k != TraitKind::Ind {
-            for w in &im.wcs {
-                match p.tr(&w.tr) {
-                    Some(t) if t.kind != TraitKind::Ind => {}
-                    _ => return false,
-                }
-            }
+        if p.tr(&im.tr).is_none() || im.wcs.iter().any(|w| p.tr(&w.tr).is_none()) {
+            return false;
         }
+    }
+    // "no mixed cycles" (the property's words): a coinductive impl may depend on an inductive goal as long as no
+    // cycle of the dependency graph passes through both kinds
+    if mixed_cycle(p) {
+        return false;
     }
     // auto traits: no parameters, no where-clauses
     p.traits().all(|t| t.kind != TraitKind::Auto || (t.params.is_empty() && t.wcs.is_empty()))
@@ -853,6 +848,7 @@ fn gen_cyc(rng: &mut Rng, auto_bias: bool, mixed: bool) -> GenOut {
 ///    ground where-clauses delay some strands so that answer arrival order differs from declaration order.
 ///  * Chain — a recursive table that has to produce its 3rd, 4th.. answer: base fact + recursive impl (optionally
 ///    bounded by a guard trait), a marker at depth k, goals `exists<X> { X: Reach, X: Top }` in both orders.
+///  * CoChain — a #[coinductive] trait with a guarded recursive impl, asked with an unknown (see below).
 ///  * Grow — a where-clause that grows its own header (`impl<T> Grow for N1<T> where N1<N1<T>>: Grow, T: Aux`): no
 ///    finite derivation, so the only correct answers are "no solution" or, at the size limit, Ambiguous; the other
 ///    where-clauses come before or after the growing one.
@@ -874,8 +870,25 @@ fn plant_templates(rng: &mut Rng, prog: &mut Prog, goals: &mut Vec<Goal>) {
             prog.items.push(Item::Impl(ImplDecl { params: vec![], tr: "Mk".into(), args: vec![], self_ty: k(i), wcs: vec![], positive: true }));
         }
     }
-    let which = rng.below(10);
-    if which < 5 {
+    let which = rng.below(12);
+    if which >= 10 {
+        // ---- CoChain: a user #[coinductive] trait whose recursive impl is guarded by an inductive bound, asked with an
+        // unknown: the first round of the fixed point assumes "holds for every instantiation", the guard then pins one
+        // substitution, and the next round has to confirm or refute THAT one
+        let n1 = |t: Ty| Ty::Adt("N1".into(), vec![t]);
+        prog.items.push(Item::Trait(TraitDecl { name: "CoC".into(), params: vec![], kind: TraitKind::Co, wcs: vec![] }));
+        let mut wcs = vec![pr(var("T0"), "Mk"), pr(var("T0"), "CoC")];
+        rng.shuffle(&mut wcs);
+        prog.items.push(Item::Impl(ImplDecl { params: vec!["T0".into()], tr: "CoC".into(), args: vec![], self_ty: n1(var("T0")), wcs, positive: true }));
+        if rng.coin(40) {
+            // the leaf holds as well: then there are solutions (K0, N1<K0>) and the answers must say so
+            prog.items.push(Item::Impl(ImplDecl { params: vec![], tr: "CoC".into(), args: vec![], self_ty: k(0), wcs: vec![], positive: true }));
+        }
+        goals.push(ex(&["X"], Goal::Pred(pr(var("X"), "CoC"))));
+        goals.push(ex(&["X"], Goal::Pred(pr(n1(var("X")), "CoC"))));
+        goals.push(Goal::Pred(pr(n1(k(0)), "CoC")));
+        goals.push(Goal::Pred(pr(n1(n1(k(0))), "CoC")));
+    } else if which < 5 {
         // ---- Lattice
         prog.items.push(Item::Adt(AdtDecl { name: "P2".into(), params: vec!["T0".into(), "T1".into()], fields: vec![] }));
         prog.items.push(Item::Trait(TraitDecl { name: "Lat".into(), params: vec![], kind: TraitKind::Ind, wcs: vec![] }));
